@@ -77,7 +77,7 @@ def forward_open_sizes(port):
 
 
 # ---------------------------------------------------------------- (a) pylogix
-def pylogix_scalars_and_big(port, rng):
+def pylogix_scalars_and_big(port, rng, spec=None):
     """scalar tags declared without a size (X=REAL, Y=LREAL, Z=DINT) written with fractional / boundary values and read back singly
     and in a multi-read; one array longer than 64 KiB read in a single call (the byte offset passes 16 bits).  -> problems"""
     import pylogix
@@ -101,6 +101,13 @@ def pylogix_scalars_and_big(port, rng):
             got = [(x.Value, x.Status) for x in rs]
             if got != [(model['X'], OK), (model['Z'], OK), (0.0, OK)]:
                 problems.append(dict(operation="Read ['X','Z','Y']", got=repr(got), expected=repr([(model['X'], OK), (model['Z'], OK), (0.0, OK)])))
+            # reads whose data fill a reply exactly (122 DINT, 244 INT at the default budget), one less and one more, from several starts
+            for nm, i, cnt in (('T', 0, 122), ('T', 17, 122), ('T', 0, 244), ('T', 3, 121), ('T', 3, 123), ('S', 0, 244), ('S', 5, 244), ('S', 1, 243), ('S', 2, 245)):
+                if spec is None:
+                    break
+                r = comm.Read('%s[%d]' % (nm, i), cnt)
+                if (list(r.Value or []), r.Status) != (list(spec[nm][i:i + cnt]), OK):
+                    problems.append(dict(operation='Read %s[%d] x %d (exact-fit neighbourhood)' % (nm, i, cnt), got=repr((r.Status, len(r.Value or []))), expected=repr((OK, cnt))))
             # the 9th..13th tag declared: each its own array of its own type
             late = {'E1': [11, -12, 13, 14], 'E2': [21, 22, -23, 24], 'E3': [31.5, -32.25, 33.0, 34.75], 'E4': [41, 42, 43, -44], 'E5': [51, -52, 53, 54]}
             for nm, vs in late.items():
@@ -537,7 +544,7 @@ def run(ctx):
                 break
         import threading
         box = []
-        th = threading.Thread(target=lambda: box.append(pylogix_scalars_and_big(port, rng)), daemon=True)
+        th = threading.Thread(target=lambda: box.append(pylogix_scalars_and_big(port, rng, spec)), daemon=True)
         th.start(); th.join(120)
         if th.is_alive():
             box.append([dict(operation='scalar tags / Read BIG[0] x 16600', problem='the client did not finish within 120 s (the transfer does not terminate)')])
